@@ -71,3 +71,60 @@ pub(crate) fn driver_timer_interpretation(values: &[(bool, u64)]) -> Result<Vec<
         Ok(out)
     })
 }
+
+/// The second place where the driver arms a timer: flush_tx feeds `UpdateSent` to the FSM
+/// after it wrote UPDATEs and applies the returned SetKeepaliveTimer itself.  A socket-less
+/// session whose arbiter is brought to Established with the given hold times gets both timers
+/// armed with known values (hold 777, keepalive 555) and one End-of-RIB pending; after the
+/// real flush_tx the keepalive timer must be the one re-armed and the hold timer untouched.
+/// Returns ((hold: pending, secs), (keepalive: pending, secs)).
+pub(crate) fn driver_update_sent(local_hold: u64, remote_hold: u16) -> Result<((usize, u64), (usize, u64)), String> {
+    let rt = runtime();
+    rt.block_on(async {
+        let addr = IpAddr::V4(Ipv4Addr::new(127, 0, 8, 201));
+        let fsm = crate::fsm::PeerFsm::new(u32::from(Ipv4Addr::new(10, 0, 0, 254)), 65000, vec![packet::Capability::MultiProtocol(Family::IPV4)], local_hold, 0, FnvHashMap::default());
+        let conn_arbiter = Arc::new(std::sync::Mutex::new(ConnArbiter::new(fsm)));
+        let ctx = Arc::new(std::sync::Mutex::new(PeerContext {
+            conn_arbiter: conn_arbiter.clone(),
+            active_connect_cancel_tx: None,
+            active_connect_join_handle: None,
+            gr_state: crate::gr::GrState::new(),
+            gr_restart_timer: None,
+            llgr_family_timers: FnvHashMap::default(),
+            rtc_state: crate::rtc::RtcState::new(),
+            rtc_eor_timer: None,
+        }));
+        let mut session = PeerSession::new_for_test(addr, ctx, Arc::new(TableManager::new(1)));
+        // new_for_test installs its own arbiter: replace it by ours (hold time under test)
+        session.conn_arbiter = conn_arbiter.clone();
+        session.context.lock().unwrap().conn_arbiter = conn_arbiter.clone();
+        let role = session.role;
+        {
+            let mut arb = conn_arbiter.lock().unwrap();
+            arb.process(role, crate::fsm::Input::Connected(false));
+            arb.process(
+                role,
+                crate::fsm::Input::MessageReceived(bgp::Message::Open(bgp::Open { as_number: 65001, holdtime: HoldTime::new(remote_hold).ok_or("hold time")?, router_id: 20, capability: vec![packet::Capability::MultiProtocol(Family::IPV4)] })),
+            );
+            arb.process(role, crate::fsm::Input::MessageReceived(bgp::Message::Keepalive));
+            if arb.state(role) != crate::fsm::State::Established {
+                return Err(format!("arbiter did not reach Established (local {local_hold}, remote {remote_hold})"));
+            }
+        }
+        let la = SocketAddr::new(IpAddr::V4(Ipv4Addr::new(127, 0, 0, 1)), 179);
+        let ra = SocketAddr::new(addr, 40000);
+        let pre = vec![
+            crate::fsm::PeerFsmOutput::Connection(role, crate::fsm::Output::SetHoldTimer(777)),
+            crate::fsm::PeerFsmOutput::Connection(role, crate::fsm::Output::SetKeepaliveTimer(555)),
+        ];
+        let _ = session.apply_outputs(pre, la, ra).await;
+        let mut p = crate::peer_tx::PendingTx::new(false);
+        p.buffer_messages(vec![bgp::Message::eor(Family::IPV4)]);
+        session.pending.insert(Family::IPV4, p);
+        let (_client, mut server) = socket_pair(addr).await?;
+        if !session.flush_tx(&mut server).await {
+            return Err("flush_tx reported a write error".into());
+        }
+        Ok((armed(&session.holdtime_futures), armed(&session.keepalive_futures)))
+    })
+}
